@@ -12,7 +12,7 @@ from . import core, rewrite
 REPO_SRC = os.environ.get("SYMX_REPO_SRC", "/repo/src")
 
 IFCONV = {
-    "pyModeS.py_common": ("crc",),
+    "pyModeS.py_common": ("crc", "crc_legacy"),
     "pyModeS.decoder.uplink": ("uplink_icao",),
 }
 
@@ -27,6 +27,7 @@ HELPERS = {
     "__symx_ite__": core.symx_ite,
     "__symx_div__": core.symx_div,
     "__symx_fstring__": core.symx_fstring,
+    "__symx_not__": core.symx_not,
 }
 
 
